@@ -104,7 +104,9 @@ fn run(input: RunInput) -> ScenFuture {
         sleep_ms(200).await;
         w.fabric.set_default_link(LinkCfg::clean(lat_min_us, lat_max_us));
         let (lmin, lmax) = (lat_min_us * 1000, lat_max_us * 1000);
-        let margin = if constant { 3 * MS } else { 3 * lmax + 30 * MS };
+        // (tokio timers fire on millisecond boundaries: a held-back request, two deliveries and a handler
+        // asleep are four timers, each up to 1 ms late - thorough-tier seed 15562941519450906931)
+        let margin = if constant { 6 * MS } else { 3 * lmax + 30 * MS };
         let mut r = w.rng("wl:calls");
         // in some runs a part of the handlers is busy on an always-ready resource instead of
         // sleeping (world::busy_on_a_hot_resource): deadlines hold for a handler that never
